@@ -471,6 +471,10 @@ func runC07(env *vk.Env) {
 			if n+5 > 2097152 && (id < 0 || id > 127) {
 				id = 1
 			}
+			if i%20 == 7 && j == 0 {
+				// id + payload exactly at the protocol maximum and just below it, whatever the width of the id
+				n = 2097152 - len(fvPut(nil, id)) - rng.Intn(3)
+			}
 			sc.St = append(sc.St, frameStim{Thr: thr, ID: id, N: n, Zero: rng.Intn(3) == 0})
 		}
 		rs = append(rs, sc)
